@@ -9,13 +9,13 @@ TABLE = {
  },
  "C16": {
   "technique": "exhaustive pattern enumeration with a poison hook and under Miri; grammar-generated safe probe programs with the compiler as oracle (must be rejected) and must-compile control twins",
-  "text": "(a) Every arity 1..8 and every present/absent pattern of the n-ary sum/product, every own/partner combination of the terminal state read, Axle<0..8> construction and Axle::get_terminal for every in-range index and twelve indices past the end are executed with inputs whose exact result identifies the contributing subset, once with the 0x7F poison hook compiled in and once as a plain program under Miri with the hook off. (b) 126 #![forbid(unsafe_code)] probe programs generated from a grammar (11 terminal accessors x 6 ways of ending or moving the device x 2 uses, plus attempts to build dangling Borrow/BorrowMut/Reference values or call unsafe constructors safely) are each compiled by rustc against the live rrtk: a probe that type-checks is a violation; each probe's control twin must compile. The 66 accessor x scenario combinations that do type-check are recorded as known findings.",
+  "text": "(a) Every arity 1..8 and every present/absent pattern of the n-ary sum/product, every own/partner/linked combination of the terminal state read crossed with five timestamp orders and both ends, Axle<0..8> construction and Axle::get_terminal for every in-range index and twelve indices past the end are executed with inputs whose exact result identifies the contributing subset, once with the 0x7F poison hook compiled in and once as a plain program under Miri with the hook off. (b) 126 #![forbid(unsafe_code)] probe programs generated from a grammar (11 terminal accessors x 6 ways of ending or moving the device x 2 uses, plus attempts to build dangling Borrow/BorrowMut/Reference values or call unsafe constructors safely) are each compiled by rustc against the live rrtk: a probe that type-checks is a violation; each probe's control twin must compile. The 66 accessor x scenario combinations that do type-check are recorded as known findings.",
   "note": "Part (b) is bounded to the probe grammar: it refutes, it cannot prove absence over all safe programs. rustc (stable, the repository's toolchain) and Miri (nightly) are trusted oracles.",
   "engine": "rrtk-verif + rustc + cargo +nightly miri",
  },
  "C17": {
   "technique": "model-based property testing of handle sequences in three differently-configured crates (configuration differential) + multi-thread stress with an exact-count oracle",
-  "text": "Random and enumerated sequences of clone / to_dyn / borrow / borrow_mut / drop over all six Reference variants are interpreted against a one-shared-cell model with a drop counter; the same interpreter source is compiled into the harness, into a downstream crate built with features named alloc/std and into the same crate built without them, and all three must agree with the model (to_dyn! must not panic for the variants it lists). 2..8 threads perform read-yield-write increments under borrow_mut() of per-thread References over one Arc/static lock and the final count must be exact; the static_* macros are checked for aliasing per call site.",
+  "text": "Random and enumerated sequences of clone / to_dyn / borrow / borrow_mut / drop over all six Reference variants are interpreted against a one-shared-cell model with a drop counter; the same interpreter source is compiled into the harness, into a downstream crate built with features named alloc/std and into the same crate built without them, and all three must agree with the model (to_dyn! must not panic for the variants it lists); four library crates ({#![no_std], std} x {with, without cfg(feature = alloc/std)}) calling to_dyn! on Ptr / RcRefCell / PtrRwLock References must compile against the std-built rrtk whenever their twin without the calls does. 2..8 threads perform read-yield-write increments under borrow_mut() of per-thread References over one Arc/static lock and the final count must be exact; the static_* macros are checked for aliasing per call site.",
   "note": "The OS owns the schedule, so the stress part is a probabilistic lost-update detector; std's locks are trusted. Raw-pointer variants point at live heap objects owned by the harness.",
  },
  "C15": {
@@ -55,8 +55,8 @@ TABLE = {
  },
  "C10": {
   "technique": "model-based property testing over generated histories with an f64 trapezoid/difference reference and running error bound; exhaustive unit panic table",
-  "text": "Integral and derivative streams over all 49 input units and the three to-state converters are fed random histories with interleaved absent/error events; values are compared with trapezoid sums and difference quotients (applied once or twice) under a derived rounding bound, presence is asserted to start at exactly the 2nd/3rd sample of a run, output time/unit are checked, timestamps shifted by a constant must reproduce outputs exactly, and each to-state converter must panic for each of the 48 wrong units and not for the right one.",
-  "note": "Reset sets as in C05; error caching is asserted in C05 only.",
+  "text": "Integral and derivative streams over all 49 input units and the three to-state converters are fed random histories with interleaved absent/error events; values are compared with trapezoid sums and difference quotients (applied once or twice) under a derived rounding bound, presence is asserted to start at exactly the 2nd/3rd sample of a run (exactly absent, not an error, before that), output time/unit are checked, timestamps shifted by a constant must reproduce outputs exactly, and each to-state converter must panic for each of the 48 wrong units and not for the right one.",
+  "note": "Reset sets as in C05; what get() returns right after an error or absent event is C05's subject.",
  },
  "C11": {
   "technique": "model-based property testing over generated event/set/follow histories with an f64 reference and running error bound, plus deletion metamorphism for set(same)",
